@@ -6,6 +6,9 @@ from vf.ref import tx_ref as TR
 from vf.runner import Acc, filler
 
 PROPERTY = "C13"
+CONCUR_FILES = ('bits/script/utils.py', 'bits/utils.py')
+# (thread a, thread b), warm-up: indices into seq_ops() - the ordinary single-case checks run concurrently (vf/concur.py)
+CONCUR_SCEN = [((0, 1), ()), ((4, 4), (1,)), ((2, 9), (6,)), ((10, 11), (7,))]
 LEVEL = "exploration"
 RULE = ("programs over the defined opcode set (read from bits.script.constants at run time) and data items: every single "
         "opcode; every data length 1..600 (thorough ..1000) and {65535,65536,70000}; (opcode,data)/(data,opcode) pairs for 6 "
@@ -16,6 +19,7 @@ RULE = ("programs over the defined opcode set (read from bits.script.constants a
 ASSUMPTIONS = ["vf/ref/script_ref.py push rules (minimal push for the length); opcode aliases that share a byte are identified",
                "a one-byte data item is a data push (no BIP62 minimal-number rule)"]
 OBLIGATIONS = {
+    "concurrent_calls": "interleavings of two concurrent calls (single-case checks in two threads, cold and after warm-up calls)",
     "history_sequences": "operation sequences (non-initial process states) explored",
     "opcode_name_lookalike": "a data item whose hex spelling equals an opcode name (with or without OP_ prefix, any case)",
     "long_program": "a program / witness stack of more than 900 items",
@@ -197,6 +201,9 @@ CASES = {"prog": chk_prog, "witness": chk_witness, "builder": chk_builder}
 
 
 def run_case(kind, case):
+    if kind == "concurcase":
+        from vf import concur
+        return concur.replay_cases(run_case, PROPERTY, case, CONCUR_FILES)
     if kind == "seq":
         from vf import seqexplore
         return seqexplore.replay(run_case, case)
@@ -235,10 +242,17 @@ def jobs(tier, seed):
         js.append({"name": f"builders/{sh}", "part": "builders", "shard": [sh, 8], "weight": 4})
     from vf.runner import seq_jobs
     js += seq_jobs(4, weight=3)
+    from vf.runner import concur_jobs
+    js += concur_jobs(len(CONCUR_SCEN))
     return js
 
 
 def run_job(job):
+    if job["part"] == "concurcase":
+        from vf.runner import run_concur_job
+        ops = seq_ops(dict(job, shard=[0, 1]))
+        scens = [{"threads": [ops[i] for i in th], "warm": [ops[i] for i in wm]} for th, wm in CONCUR_SCEN]
+        return run_concur_job(job, scens, run_case, PROPERTY, CONCUR_FILES)
     if job["part"] == "seq":
         from vf.runner import run_seq_job
         return run_seq_job(job, seq_ops(job), run_case)
